@@ -438,6 +438,8 @@ def run(chk):
     bulk(chk)
     reentrant_disconnect(chk)
     backlog_then_reconnect(chk)
+    import encsess
+    encsess.run(chk, 'encrypted-large-writes', 3, rng)
     if good:
         chk.sample('random', {'programs': good[-1][0].progs, 'wire': good[-1][1], 'preemptions': good[-1][0].preempt}, k=1)
     chk.assumptions += ['PARTIAL: the granularity of atomicity is assumed - deque.append / popleft and one socket.send are atomic, a blocking send transmits all its bytes; real OS preemption is represented by the scheduling points only',
